@@ -21,12 +21,13 @@ from ..core import Family
 
 ID = "C09"
 READY = True
-LEAN_TARGETS = ["NauyacaVerif.Props.C09"]
+LEAN_TARGETS = ["NauyacaVerif.Props.C09", "NauyacaVerif.Props.Translated"]
 THEOREMS = [f"NauyacaVerif.C09.{t}" for t in (
     "acl_iff", "acl_response", "unparsed_refused", "contains_interval", "cross_family_never",
     "config_faithful", "default_deny_refuses_all", "disabled_admits",
     "start_faithful", "bad_entry_no_start", "good_entries_start",
-    "denyLine_tie", "denyLine_known", "strict_tie", "third_attempt_tie")]
+    "denyLine_tie", "denyLine_known", "strict_tie", "third_attempt_tie")] + ['NauyacaVerif.Translated.isAllowed_eq']
+TRANSLATED = ['isAllowed']
 EXTRACT = ["mwResponses"]
 ASSUMPTIONS = [
     "text parsing of list entries and peer addresses is ipaddress's (CPython 3.12.1): the model receives (family, integer, prefix length); an entry is 'interpretable' iff ipaddress.ip_network(entry) (strict) accepts it",
